@@ -304,8 +304,21 @@ class FnModel:
         return o
 
     def is_level_loop(self, forstmt):
-        txt = "".join(self.facts.ntext(x) for x in forstmt["c"][:2] if x)
-        return "stopUpperLevel" in txt or "getTreeHeight" in txt
+        """the loop's start or bound is the upper working level or derived from the tree height, directly or through
+        single-assignment locals (`const long int leafLevel = configuration.getTreeHeight()-1;`)"""
+        def mentions(n, depth=0):
+            if n is None or depth > 6:
+                return False
+            txt = self.facts.ntext(n)
+            if "stopUpperLevel" in txt or "getTreeHeight" in txt:
+                return True
+            for x in walk(n):
+                if x.get("k") == "DeclRefExpr" and x.get("dk") == "Var" and x.get("did") not in self.loop_vars and x.get("did") not in self.assigned:
+                    d = self.decls.get(x.get("did"))
+                    if d is not None and d.get("k") == "VarDecl" and kids(d) and mentions(kids(d)[0], depth + 1):
+                        return True
+            return False
+        return any(mentions(x) for x in forstmt["c"][:2] if x)
 
     def lambda_arg_origin(self, lam, idx, depth):
         """parameter idx of a lambda that is an argument of a call: described by that call"""
@@ -396,6 +409,12 @@ class FnModel:
             return -self.sym(kids(n)[0])
         if k == "DeclRefExpr" and n.get("did") in self.loop_vars and not self.is_level_loop(self.loop_vars[n["did"]]):
             return sympy.Symbol("<loop%d>" % n["did"], integer=True)
+        if k == "DeclRefExpr" and n.get("dk") == "Var" and n.get("did") not in self.loop_vars and n.get("did") not in self.assigned and n.get("did") not in self.lambda_bind:
+            d = self.decls.get(n.get("did"))
+            if d is not None and d.get("k") == "VarDecl" and len(kids(d)) == 1 and re.search(r"\b(long|int|short|size_t|ptrdiff_t|unsigned)\b", d.get("t", "")):
+                i0 = strip(kids(d)[0])
+                if i0.get("k") in ("BinaryOperator", "IntegerLiteral", "UnaryOperator", "CXXStaticCastExpr", "CStyleCastExpr", "CXXFunctionalCastExpr"):
+                    return self.sym(i0)      # an integer local defined once by an arithmetic expression: its value
         o = self.origin(n)
         if o == "H":
             return H
